@@ -341,6 +341,12 @@ func (e2eFamily) Gen(n int, seed int64, mode, tier string) []interface{} {
 			}
 			s.connect(0, "late", "c-late", "", 60, nil)
 			s.sub("late", []string{"nothing/here", "a/#", "+", "b/+"}, []int{0, 1, 0, 0})
+			// a session that subscribes again with a filter it already holds (no UNSUBSCRIBE in between) is a
+			// later subscription like any other: it is sent the current retained messages again
+			// [MQTT-3.8.4-3]; "live" has so far only seen the unflagged live copies
+			s.sub("live", []string{"#"}, []int{0})
+			s.pub("pub", "a/b", "changed", 0, true)
+			s.sub("late", []string{"+", "a/#"}, []int{0, 1})
 			out = append(out, s.in)
 		case "lifecycle":
 			// C11 (and the refusal part of C16): sessions with subscriptions ending for one of the
